@@ -43,6 +43,10 @@ type Root struct {
 	subLock       sync.Mutex
 	excludeTime   bool
 	excludeInt64  bool
+
+	// implicitSchema is the schema formed from the default root operation
+	// type names when no schema definition has been loaded.
+	implicitSchema *Schema
 }
 
 // NewRoot creates a new GraphQL schema root with a root resolver object. The
@@ -349,6 +353,9 @@ func (root *Root) ParseReader(r io.Reader) error {
 		undo, err = root.addExtends(extends...)
 	}
 	if err == nil {
+		if root.schema != nil {
+			undo = append(undo, extendUndo(root.schema))
+		}
 		root.assureSchema()
 		err = root.validate()
 	}
@@ -1168,9 +1175,15 @@ func (root *Root) AddEvent(id string, event interface{}) (cnt int, err error) {
 func (root *Root) assureSchema() {
 	if root.schema == nil {
 		root.schema = &Schema{Object: Object{fields: fieldList{dict: map[string]*FieldDef{}}}}
+		root.implicitSchema = root.schema
+	}
+	if root.schema == root.implicitSchema {
+		// The schema was not defined with a schema definition so the root
+		// operation types are the types with the default names. Those can
+		// be loaded after the implicit schema was first formed.
 		for _, cap := range []string{"Query", "Mutation", "Subscription"} {
-			if t := root.types.get(cap); t != nil {
-				name := strings.ToLower(cap)
+			name := strings.ToLower(cap)
+			if t := root.types.get(cap); t != nil && root.schema.fields.get(name) == nil {
 				_ = root.schema.fields.add(&FieldDef{Base: Base{N: name}, Type: t})
 			}
 		}
